@@ -23,7 +23,7 @@ TRUSTED_BASE = [
 
 class Stream:
     def __init__(self, name, stream, gen, args=(), flavours=("rel",), spec=None, spec_args=None, nontrivial=None,
-                 L=None, search_gen=None, timeout=300, model_args=None, exhaustive=False, rule="", env=None, expect=None, model_case=None, tiers=None):
+                 L=None, search_gen=None, timeout=300, model_args=None, exhaustive=False, rule="", env=None, expect=None, model_case=None, tiers=None, stateless=False):
         self.name, self.stream, self.gen, self.args = name, stream, gen, list(args)
         self.flavours, self.spec, self.spec_args = flavours, spec, spec_args
         self.nontrivial = nontrivial or (lambda case, line: True)
@@ -35,6 +35,8 @@ class Stream:
         self.expect = expect          # python function case -> expected line (instead of the extracted model)
         self.model_case = model_case  # transform of the case before it is handed to the model
         self.tiers = tiers            # None = every tier
+        self.stateless = stateless    # the function under test keeps no state between calls: the cases are also run in
+                                      # two seeded random orders within one process and must give the same lines
 
 class Prop:
     def __init__(self, pid, coq, streams, level_note="", extra=None, judge=None):
@@ -132,6 +134,21 @@ def run_one_stream(ctx, s, cases, model_stream=None, flavours=None):
         impl_by[fl] = impl
         for (i, c, a, b) in corr.compare(cases, impl, model_lines):
             dis.append((fl, i, c, a, b))
+    if s.stateless and len(keep) > 1:
+        # order independence: same process, two random orders; a result that depends on what was decoded / encoded
+        # before (a cache, a static buffer, a remembered pointer) shows as a line that differs from the model's
+        fl = (flavours or s.flavours)[0]
+        hx = ctx.hx(fl, s.L)
+        for k in ((1, 2) if len(keep) <= 60000 else (1,)):
+            order = list(keep)
+            random.Random(ctx.seed * 7919 + k).shuffle(order)
+            sub = corr.run_stream([hx, s.stream] + [str(a) for a in s.args], [cases[i] for i in order], timeout=s.timeout, env=s.env)
+            for j, i in enumerate(order):
+                got = sub[j] if j < len(sub) else "MISSING"
+                if corr.compare([cases[i]], [got], [model_lines[i]]):
+                    prev = cases[order[j - 1]] if j else "-"
+                    dis.append(("%s~order%d after %s" % (fl, k, prev[:80]), i, cases[i], got, model_lines[i]))
+        ctx.notes.append("stream %s: order independence checked with 2 shuffles of %d cases" % (s.name, len(keep)))
     return dis, model_lines, impl_by
 
 def run_property(prop, tier, seed, replay=None):
@@ -196,6 +213,8 @@ def run_property(prop, tier, seed, replay=None):
                 cov["streams"][s.name] = {"cases": len(cases), "flavours": list(s.flavours), "nontrivial": nt,
                                           "outcome_distribution": dist, "disagreements": len(dis),
                                           "exhaustive": s.exhaustive, "rule": s.rule}
+                if s.stateless:
+                    cov["streams"][s.name]["order_independence"] = "the cases were also run in seeded random order(s) within one process (first flavour) and every line compared with the model's again"
                 if ctx.dropped.get(s.name):
                     cov["streams"][s.name]["cases_illegal_under_a_refusal_schedule_not_run"] = ctx.dropped[s.name]
                 k = min(3, len(cases))
